@@ -2,6 +2,8 @@ package absint
 
 import (
 	"go/constant"
+	"go/token"
+	"go/types"
 
 	"golang.org/x/tools/go/ssa"
 	"golang.org/x/tools/go/ssa/ssautil"
@@ -71,4 +73,238 @@ func GlobalRegex(g *ssa.Global) (string, bool) {
 		return "", false
 	}
 	return MustCompileConst(sts[0].Val)
+}
+
+// ---------------------------------------------------------------------------
+// read-only package-level tables
+
+type globalUse struct {
+	stores []*ssa.Store // *g = v
+	loads  []*ssa.UnOp  // v = *g
+	other  int          // any other use of g's address
+}
+
+var globalUses = map[*ssa.Program]map[*ssa.Global]*globalUse{}
+
+func usesOf(g *ssa.Global) *globalUse {
+	prog := g.Pkg.Prog
+	idx := globalUses[prog]
+	if idx == nil {
+		idx = map[*ssa.Global]*globalUse{}
+		at := func(gg *ssa.Global) *globalUse {
+			u := idx[gg]
+			if u == nil {
+				u = &globalUse{}
+				idx[gg] = u
+			}
+			return u
+		}
+		var ops []*ssa.Value
+		for fn := range ssautil.AllFunctions(prog) {
+			for _, b := range fn.Blocks {
+				for _, in := range b.Instrs {
+					ops = in.Operands(ops[:0])
+					for _, op := range ops {
+						gg, ok := (*op).(*ssa.Global)
+						if !ok {
+							continue
+						}
+						switch y := in.(type) {
+						case *ssa.Store:
+							if y.Addr == ssa.Value(gg) && y.Val != ssa.Value(gg) {
+								at(gg).stores = append(at(gg).stores, y)
+								continue
+							}
+						case *ssa.UnOp:
+							if y.Op == token.MUL {
+								at(gg).loads = append(at(gg).loads, y)
+								continue
+							}
+						case *ssa.DebugRef:
+							continue
+						}
+						at(gg).other++
+					}
+				}
+			}
+		}
+		globalUses[prog] = idx
+	}
+	if u := idx[g]; u != nil {
+		return u
+	}
+	return &globalUse{}
+}
+
+// readOnlyTable: g is assigned exactly once, by its package's initialiser, its
+// address is used for nothing but loads, and nothing is stored through (or
+// handed to a callee from) what is loaded from it. Such a variable is a
+// constant table: its initialiser says what every read sees.
+func readOnlyTable(g *ssa.Global) (*ssa.Store, bool) {
+	if g == nil || g.Pkg == nil {
+		return nil, false
+	}
+	u := usesOf(g)
+	if len(u.stores) != 1 || u.other != 0 {
+		return nil, false
+	}
+	st := u.stores[0]
+	if st.Parent() == nil || st.Parent().Name() != "init" || st.Parent().Pkg != g.Pkg {
+		return nil, false
+	}
+	// what is derived from the loaded value must only be read
+	for _, ld := range u.loads {
+		seen := map[ssa.Value]bool{}
+		var ro func(v ssa.Value, d int) bool
+		ro = func(v ssa.Value, d int) bool {
+			if seen[v] || v.Referrers() == nil {
+				return true
+			}
+			if d > 12 {
+				return false
+			}
+			seen[v] = true
+			_, isAddr := v.Type().Underlying().(*types.Pointer)
+			_, isSlice := v.Type().Underlying().(*types.Slice)
+			_, isMap := v.Type().Underlying().(*types.Map)
+			for _, r := range *v.Referrers() {
+				switch y := r.(type) {
+				case *ssa.DebugRef, *ssa.If, *ssa.Return:
+					if _, isRet := y.(*ssa.Return); isRet && (isAddr || isSlice || isMap) {
+						return false // the table (or an address into it) leaves the function
+					}
+				case *ssa.Store:
+					if y.Addr == v {
+						return false
+					}
+					if y.Val == v && (isAddr || isSlice || isMap) {
+						return false
+					}
+				case *ssa.MapUpdate:
+					return false
+				case *ssa.Call:
+					if b, ok := y.Common().Value.(*ssa.Builtin); ok && (b.Name() == "len" || b.Name() == "cap") {
+						continue
+					}
+					if y.Common().Value == v {
+						continue // calling a function value read from the table
+					}
+					if isAddr || isSlice || isMap {
+						return false
+					}
+				case *ssa.Go, *ssa.Defer, *ssa.MakeClosure, *ssa.Send:
+					if isAddr || isSlice || isMap {
+						return false
+					}
+				case *ssa.IndexAddr, *ssa.FieldAddr, *ssa.Slice, *ssa.Index, *ssa.Field, *ssa.Lookup, *ssa.Range, *ssa.Next, *ssa.Extract, *ssa.Phi, *ssa.ChangeType, *ssa.Convert, *ssa.MakeInterface:
+					if !ro(y.(ssa.Value), d+1) {
+						return false
+					}
+				case *ssa.UnOp:
+					if y.Op == token.MUL {
+						if !ro(y, d+1) {
+							return false
+						}
+					}
+				case *ssa.BinOp:
+				default:
+					if isAddr || isSlice || isMap {
+						return false
+					}
+				}
+			}
+			return true
+		}
+		if !ro(ld, 0) {
+			return nil, false
+		}
+	}
+	return st, true
+}
+
+// tableInit evaluates the initialiser of a read-only table: the value stored
+// into g by its package's init, computed by replaying — in program order — the
+// stores init makes into the objects that value is built from (the elements
+// of a composite literal). Anything init does that is not needed for the
+// value is not touched. ok=false: not a read-only table, or its initialiser
+// uses something that is not modelled.
+func (in *Interp) tableInit(g *ssa.Global) (n *Node, ok bool) {
+	st, ro := readOnlyTable(g)
+	if !ro {
+		return nil, false
+	}
+	init := st.Parent()
+	defer func() {
+		if r := recover(); r != nil {
+			if _, isAbort := r.(abort); isAbort {
+				n, ok = nil, false
+				return
+			}
+			panic(r)
+		}
+	}()
+	fr := &frame{in: in, fn: init, env: map[ssa.Value]Value{}, depth: 1}
+	rootOf := func(a ssa.Value) ssa.Value {
+		for d := 0; d < 16; d++ {
+			switch y := a.(type) {
+			case *ssa.FieldAddr:
+				a = y.X
+			case *ssa.IndexAddr:
+				a = y.X
+			case *ssa.Slice:
+				a = y.X
+			default:
+				return a
+			}
+		}
+		return a
+	}
+	forcing := map[ssa.Value]bool{}
+	var force func(v ssa.Value) Value
+	force = func(v ssa.Value) Value {
+		if r, ok := fr.env[v]; ok {
+			return r
+		}
+		switch v.(type) {
+		case *ssa.Const, *ssa.Global, *ssa.Function, *ssa.Builtin:
+			return fr.get(v)
+		}
+		if forcing[v] {
+			in.stop("initialiser of %s: cyclic definition", g.Name())
+		}
+		forcing[v] = true
+		instr, isInstr := v.(ssa.Instruction)
+		if !isInstr || instr.Parent() != init {
+			in.stop("initialiser of %s: value %s is not computed by the package initialiser", g.Name(), v.Name())
+		}
+		switch y := v.(type) {
+		case *ssa.Phi, *ssa.Parameter, *ssa.FreeVar:
+			in.stop("initialiser of %s: control flow in the initialiser is not modelled", g.Name())
+		case *ssa.Alloc:
+			fr.env[v] = fr.eval(y)
+			// replay the stores made into this object, in program order
+			for _, b := range init.Blocks {
+				for _, i2 := range b.Instrs {
+					s, ok := i2.(*ssa.Store)
+					if !ok || rootOf(s.Addr) != ssa.Value(y) {
+						continue
+					}
+					fr.store(force(s.Addr), force(s.Val))
+				}
+			}
+			return fr.env[v]
+		}
+		var ops []*ssa.Value
+		for _, op := range instr.Operands(ops) {
+			if *op != nil {
+				force(*op)
+			}
+		}
+		fr.env[v] = fr.eval(v)
+		return fr.env[v]
+	}
+	val := force(st.Val)
+	n = zeroNode(g.Type().(*types.Pointer).Elem())
+	fr.store(Ptr{n}, val)
+	return n, true
 }
